@@ -82,6 +82,11 @@ def cases(draw, tier):
     if sub == "columns":
         case["nrhs"] = draw(st.integers(2, 3))
         case["norm_exp"] = [draw(st.integers(-3, 3)) for _ in range(case["nrhs"])]
+        if draw(st.integers(1, 3)) == 1:
+            # single precision with column norms spread over more than 1 / eps (still far inside the 12 decades promised)
+            case["single"], case["kappa"] = True, min(case["kappa"], 10.0)
+            case["norm_exp"] = [4, -4] + [draw(st.integers(-4, 4)) for _ in range(case["nrhs"] - 2)]
+            case["x0"] = draw(st.sampled_from(["drawn", "drawn", "zero"]))
         case["max_iters"] = draw(st.integers(0, min(6, n)))
         case["zero_col"] = False
     return case
@@ -332,7 +337,7 @@ def check(case, out):
                 return
             xj = np.asarray(rj[0])
             den = max(np.linalg.norm(xj), np.linalg.norm(X0[:, j]), 1e-300)  # rounding is relative to the larger of x and x0
-            if np.linalg.norm(X[:, j] - xj) > 1e-8 * kappa * den:
+            if np.linalg.norm(X[:, j] - xj) > (2e-4 if case.get("single") else 1e-8) * kappa * den:
                 out.fail(sub, site, "column_coupling", f"col {j}: joint vs solo differ by {np.linalg.norm(X[:, j] - xj) / den:.3e} at k={k}")
         return
 
